@@ -1,0 +1,7 @@
+//go:build !verif
+
+package updog
+
+// verifPoint marks a point of interest for the external verification harness
+// (see verif_on.go); without the verif build tag it does nothing.
+func verifPoint(site string) {}
